@@ -36,6 +36,13 @@ def image(draw):
     bpa = cpu[1]
     # open finding C05-signed-byte-address: labels at byte addresses >= 2^31 are wrong when bpa > 1 (excluded here)
     base = draw(st.sampled_from(BASES if bpa == 1 else [b for b in BASES if b < 0x7e000000]))
+    if draw(st.sampled_from([True, False, False])):
+        # generated upper address word: any 16-bit value, or one whose extended-address record has checksum byte 0x00
+        # (byte sum 0xfa: 02+00+00+04+hi+lo == 0 mod 256), the boundary of the record checksum arithmetic
+        hi_b = draw(st.integers(0, 255 if bpa == 1 else 0x7d))
+        lo_b = (0xfa - hi_b) & 0xff if draw(st.booleans()) else draw(st.integers(0, 255))
+        base = (hi_b << 24) | (lo_b << 16) | draw(st.sampled_from([0, 0x10, 0xff00, 0xfff0]))
+        base = min(base, 0xfffffd00)
     base -= base % bpa
     nseg = draw(st.sampled_from([1, 1, 2, 2, 3, 4, 6, 10]))
     big = draw(st.integers(0, 9)) == 0
